@@ -115,7 +115,7 @@ def check(inp):
 def candidates(seed, around=None):
     rnd = random.Random(seed)
     alpha = ["a", "b", " ", "\t", "\f", ","]
-    if around:
+    if around and "line" in around:
         for ll in range(0, 12):
             for ind in (0, 1, 2):
                 d = dict(around)
